@@ -80,7 +80,9 @@ impl Scheduler {
     }
 
     fn schedule(&mut self, pkt: Packet, delay: Duration) {
-        let deliver_at = self.now + delay;
+        // Saturate: a delay too large to represent ("hold for ever") just
+        // parks the packet instead of overflowing the sim clock.
+        let deliver_at = self.now.saturating_add(delay);
         let seq = self.next_seq;
         self.next_seq += 1;
         let entry = Scheduled {
